@@ -172,27 +172,31 @@ var genC06 = &genPlan{al: &dbconc.AlphaC06,
 	}}
 
 var genC07 = &genPlan{al: &dbconc.AlphaC07,
-	what: "every unordered pair of committing clients from an alphabet of 8 items (RR/SER transactions with intersecting and disjoint write sets, RC and autocommit writers, a rolled-back writer) on keys a, b: 2 deviations quick; 3 deviations, and a GC actor at 1, thorough",
+	what: "every unordered pair of committing clients from an alphabet of 8 items (RR/SER transactions with intersecting and disjoint write sets, RC and autocommit writers, a rolled-back writer) on keys a, b: 2 deviations quick; 3 deviations, and a GC actor at 1, thorough; once more with release points at 1 / 2",
 	items: func(tier string, add func([]string, int)) {
 		al := &dbconc.AlphaC07
 		if tier == "thorough" {
 			add(al.Programs(1, 1, al.Inits[0], false), 3)
 			add(al.Programs(1, 1, al.Inits[0], true), 1)
+			add(withOpt(al.Programs(1, 1, al.Inits[0], false), "up=1"), 2)
 			return
 		}
 		add(al.Programs(1, 1, al.Inits[0], false), 2)
+		add(withOpt(al.Programs(1, 1, al.Inits[0], false), "up=1"), 1) // once more with release points
 	}}
 
 var genC08 = &genPlan{al: &dbconc.AlphaC08,
-	what: "every pair of a snapshot reader (RR get a/get b/get a; SER keys/get a/get b; RR get a/keys/get a) or writer with a writer (autocommit Set a+Set b, Delete a, RC commit of a and b, RR set a + delete b commit, RC rollback) on keys a, b: 2 deviations quick; 3 deviations, and a GC actor at 1, thorough",
+	what: "every pair of a snapshot reader (RR get a/get b/get a; SER keys/get a/get b; RR get a/keys/get a) or writer with a writer (autocommit Set a+Set b, Delete a, RC commit of a and b, RR set a + delete b commit, RC rollback) on keys a, b: 2 deviations quick; 3 deviations, and a GC actor at 1, thorough; once more with release points at 1 / 2",
 	items: func(tier string, add func([]string, int)) {
 		al := &dbconc.AlphaC08
 		if tier == "thorough" {
 			add(al.Programs(1, 1, al.Inits[0], false), 3)
 			add(al.Programs(1, 1, al.Inits[0], true), 1)
+			add(withOpt(al.Programs(1, 1, al.Inits[0], false), "up=1"), 2)
 			return
 		}
 		add(al.Programs(1, 1, al.Inits[0], false), 2)
+		add(withOpt(al.Programs(1, 1, al.Inits[0], false), "up=1"), 1) // once more with release points
 	}}
 
 func c06(tier string) int {
